@@ -1,12 +1,12 @@
 SPECIFICATION Spec
 CONSTANTS
-  MDests = {"NN", "EN", "NE", "EE", "spdp"}
-  MKinds = {"DATA", "HB", "ACK"}
+  MDests = {"NN", "EN", "NE", "EE"}
+  MKinds = {"DATA", "HB"}
   MGovs = {"N", "E"}
-  MaxLen = 5
-  MXm = {0}
-  MWraps = "all"
-  MSrcs = {"peer", "foreign"}
+  MaxLen = 4
+  MXm = {1, 2, 3, 4}
+  MWraps = "unknown"
+  MSrcs = {"peer", "peer2"}
   GenK = 1
 VIEW View
 INVARIANT Inv_Protected
